@@ -9,6 +9,8 @@ import manifest_text as T
 VERIF = os.path.dirname(HERE)
 checks = []
 for pid in sorted(P.PROPS):
+    if pid not in T.TEXT:
+        continue
     spec = P.PROPS[pid]
     t = T.TEXT[pid]
     checks.append(dict(
@@ -22,14 +24,14 @@ for pid in sorted(P.PROPS):
         level_note=t['note'],
         technique=t['technique'],
     ))
-na = [dict(property_id=k, reason=v) for k, v in sorted(T.NOT_APPLICABLE.items()) if k not in P.PROPS]
+na = [dict(property_id=k, reason=v) for k, v in sorted(T.NOT_APPLICABLE.items()) if not (k in P.PROPS and k in T.TEXT)]
 m = dict(
     version=1,
     setup_cmd='./setup.sh',
     hooks=dict(guard='cargo feature verif-hooks (crates/srtla-core, srtla_send)', enable='path dependency with features = ["test-internals", "verif-hooks"] from /verif/kx and /verif/replay',
                baseline_off_cmd=T.BASELINE_OFF, source_commits=T.HOOK_COMMITS, add_only=True),
     engines=[
-        dict(name='verus-extract', path='/verif/vx', serves_properties=sorted(P.PROPS), kind_free_text='Verus 0.2026.09.13 on functions extracted mechanically from /repo on every run, contracts spliced from vx/units/*.py'),
+        dict(name='verus-extract', path='/verif/vx', serves_properties=sorted(k for k in P.PROPS if k in T.TEXT), kind_free_text='Verus 0.2026.09.13 on functions extracted mechanically from /repo on every run, contracts spliced from vx/units/*.py'),
         dict(name='kani', path='/verif/kx', serves_properties=T.KANI_SERVES, kind_free_text='Kani 0.68 harnesses on the real crates (path dependencies), loop-free = complete, loops = bounded'),
     ],
     checks=checks,
